@@ -53,7 +53,7 @@ def shards(tier, seed):
     return out
 
 
-def checker_photo(rng, darsia, shape, dtype, linear_only=False, ref=None):
+def checker_photo(rng, darsia, shape, dtype, linear_only=False, ref=None, amplitude=0.08, full_size=False):
     """Photo with an embedded 4x6 colour checker whose colours are an affine (or linear) distortion
     of random reference colours.  Returns (array, roi corner voxels, reference colours)."""
     import cv2
@@ -61,8 +61,8 @@ def checker_photo(rng, darsia, shape, dtype, linear_only=False, ref=None):
     if ref is None:
         ref = rng.uniform(0.25, 0.75, size=(4, 6, 3)).astype(np.float32)
     for _ in range(100):
-        A = np.eye(3) + rng.uniform(-0.08, 0.08, size=(3, 3))
-        b = np.zeros(3) if linear_only else rng.uniform(-0.04, 0.04, size=3)
+        A = np.eye(3) + rng.uniform(-amplitude, amplitude, size=(3, 3))
+        b = np.zeros(3) if linear_only else rng.uniform(-amplitude / 2, amplitude / 2, size=3)
         # the photo shows the colours that the exact inverse map sends back to the reference
         shown = (np.asarray(ref, float) - b) @ np.linalg.inv(A)
         if shown.min() > 0.02 and shown.max() < 0.98:  # no clipping: the relation stays exact
@@ -75,7 +75,14 @@ def checker_photo(rng, darsia, shape, dtype, linear_only=False, ref=None):
             chk[rows[r] - 8 : rows[r] + 58, cols[c] - 8 : cols[c] + 58] = shown[r, c]
     H, W = shape
     ch, cw = max(40, H // 2), max(60, W // 2)
-    small = cv2.resize(chk, (cw, ch), interpolation=cv2.INTER_AREA)
+    if full_size:
+        # the checker is shown at the size of the extraction template: every sampled swatch window lies well inside a
+        # uniformly coloured square, so the extracted swatches are the shown colours up to float32 rounding
+        H, W = max(H, 340), max(W, 520)
+        ch, cw = 326, 500
+        small = chk
+    else:
+        small = cv2.resize(chk, (cw, ch), interpolation=cv2.INTER_AREA)
     photo = rng.uniform(0.2, 0.8, size=(H, W, 3))
     r0, c0 = int(rng.integers(0, H - ch + 1)), int(rng.integers(0, W - cw + 1))
     photo[r0 : r0 + ch, c0 : c0 + cw] = small
